@@ -352,7 +352,9 @@ impl ZmtpUringHandler {
         }
         AppAction::PeerError(e) => {
           warn!(fd = self.fd, err = %e, "ZmtpUringHandler: peer error");
-          self.is_closing = true;
+          // `is_closing` is set by `close_initiated()`, which the worker calls for
+          // `initiate_close_due_to_error`; setting it here made that call return early and the
+          // fd was never closed.
           let _ = self
             .worker_io_config
             .socket_mailbox
